@@ -2,10 +2,11 @@
 """Child interpreter for the work-bound part of C03: reads `side hexstream` lines, announces each before
 parsing it and reports the outcome and the time it took.  The parent kills it when one input exceeds the
 budget (a regular-expression match cannot be interrupted from inside the interpreter)."""
+import os
 import sys
 import time
 
-sys.path.insert(0, '/repo')
+sys.path.insert(0, os.environ.get('HTTOOP_REPO', '/repo'))
 sys.path.insert(0, __file__.rsplit('/', 1)[0])
 import parserutil  # noqa: E402
 from core import exc_name  # noqa: E402
